@@ -71,6 +71,8 @@ structure Mon where
   curVal : Int := 0
   curMap : List (Nat × Int) := []
   keys : List Nat := []
+  /-- a request was sent without waiting for the agent to settle and no `drain` has happened since -/
+  unsettled : Bool := false
   cmdSent : List (Nat × List Int) := []            -- per remote: commands sent to the command lane, in order
   cmdSeen : List Int := []                         -- handler invocations, in order
   pairs : List (Nat × Pair) := []
@@ -306,10 +308,28 @@ def Mon.commandsOk (m : Mon) : Option String :=
         let seenOfR := m.cmdSeen.filter (fun c => p.2.contains c)
         if seenOfR == p.2 then none else some "command-reordered") none
 
+/-- `@take(n)` / `@drop(n)` sent to the map lane while everything is settled: the keys removed must be exactly the
+ones designated by the key order (take keeps the first `n` keys, drop removes the first `n`). -/
+def takeDropExpected (cur : List (Nat × Int)) (body : String) : Option (List Nat) :=
+  let keys := (cur.map (·.1)).mergeSort (· ≤ ·)
+  if body.startsWith "@take(" then
+    ((body.drop 6).toString.takeWhile Char.isDigit).toString.toNat?.map (fun n => keys.drop n)
+  else if body.startsWith "@drop(" then
+    ((body.drop 6).toString.takeWhile Char.isDigit).toString.toNat?.map (fun n => keys.take n)
+  else none
+
+def removedKeys (hs : List String) : List Nat :=
+  (hs.filterMap fun h => match h.splitOn ":" with
+    | ["map", "rem", k] => (parseInt k).map ikey
+    | _ => none).mergeSort (· ≤ ·)
+
 def Mon.step (m : Mon) (line : String) (out : String) : Mon × Option String :=
   let m := { m with t := m.t + 1 }
   let ws := words out
-  let line := if line.startsWith "!" then (line.drop 1).toString else line
+  let burst := line.startsWith "!"
+  let settledBefore := !m.unsettled && !burst
+  let m := { m with unsettled := (m.unsettled || burst) && line != "drain" }
+  let line := if burst then (line.drop 1).toString else line
   match words line with
   | ["cfg", _] => (m, none)
   | ["end"] => (m, some ("run-" ++ (ws.headD "failed")))
@@ -349,6 +369,17 @@ def Mon.step (m : Mon) (line : String) (out : String) : Mon × Option String :=
     let hs := splitList ((fieldOf ws "h").getD "-")
     let r1 := hs.foldl (fun (acc : Mon × Option String) h =>
       match acc.2 with | some e => (acc.1, some e) | none => acc.1.history h) (m2, none)
+    let r1 : Mon × Option String := match r1.2, opw with
+      | none, ["cmd", _, "map", body] =>
+        if settledBefore then
+          match (bytesOfHex body).map (fun bs => String.ofList (bs.map Char.ofNat)) with
+          | some txt => match takeDropExpected m.curMap txt with
+            | some expected =>
+              if removedKeys hs == expected then r1 else (r1.1, some "map-take-drop-wrong-keys")
+            | none => r1
+          | none => r1
+        else r1
+      | _, _ => r1
     match r1.2 with
     | some e => (r1.1, some e)
     | none =>
